@@ -87,11 +87,33 @@ ApplyOp(I, o) == IF o.op = "upsert" THEN Upsert(I, o.ixn) ELSE Delete(I, o.ixn)
 RECURSIVE Fold(_, _)
 Fold(I, h) == IF h = <<>> THEN I ELSE Fold(ApplyOp(I, Head(h)), Tail(h))
 
+\* ------------------------------------------------------------------ writes that address an intention by IDENTITY
+\* The legacy API names an intention by a UUID: LegacyIntentionSet with a new ID creates, with an existing ID
+\* REPLACES the whole record - source and destination included (legacyIntentionSetTxn) ; LegacyIntentionDelete(id).
+\* After the migration the same API is served from config entries: IntentionMutation create / update / delete by
+\* SourceIntention.LegacyID (intentionMutationLegacyCreate/Update/Delete; an update stays inside its destination's
+\* entry).  State: J = set of [id, ixn]; the SET of intentions is SetOf(J) and every answer is a function of it -
+\* whatever the identities and whatever was stored under an identity before.
+SetOf(J) == {j.ixn : j \in J}
+KeyFreeFor(J, id, i) == \A j \in J : j.id # id => Key(j.ixn) # Key(i)     \* "duplicate intention found" / "defines %q more than once"
+IdAccepts(J, o) ==
+  CASE o.op = "create" -> (\A j \in J : j.id # o.id) /\ KeyFreeFor(J, o.id, o.ixn)
+    [] o.op = "update" -> (\E j \in J : j.id = o.id) /\ KeyFreeFor(J, o.id, o.ixn)
+    [] OTHER           -> \E j \in J : j.id = o.id                        \* "remove"
+IdApply(J, o) ==
+  IF ~IdAccepts(J, o) THEN J                                                \* a refused write changes nothing
+  ELSE IF o.op = "remove" THEN {j \in J : j.id # o.id}
+  ELSE {j \in J : j.id # o.id} \cup {[id |-> o.id, ixn |-> o.ixn]}
+RECURSIVE IdFold(_, _)
+IdFold(J, h) == IF h = <<>> THEN J ELSE IdFold(IdApply(J, Head(h)), Tail(h))
+IdReps == {"legacy-id", "ce-legacyid"}
+
 \* which intentions a representation can hold:
-\*   legacy table: no peers, no permissions (Intention.Validate) ; IntentionMutation upsert: no peer
-\*   (Intention.Apply rejects SourcePeer) ; permissions never on a wildcard destination (validate()).
+\*   legacy table and the legacy-ID API: no peers, no permissions (Intention.Validate / LegacyValidate) ;
+\*   IntentionMutation upsert: no peer (Intention.Apply rejects SourcePeer) ; permissions never on a wildcard
+\*   destination (validate()).
 Representable(rep, i) ==
   /\ ~(i.act = "l7" /\ i.dst = WILD)
-  /\ (rep = "legacy"    => i.peer = NOPEER /\ i.act # "l7")
+  /\ (rep \in {"legacy", "legacy-id", "ce-legacyid"} => i.peer = NOPEER /\ i.act # "l7")
   /\ (rep = "ce-upsert" => i.peer = NOPEER)
 =============================================================================
